@@ -149,6 +149,49 @@ class C06(Check):
     def bound(self):
         return 3 if self.tier == "quick" else 4
 
+    def _eval_shipped_bam(self, st):
+        """The shipped CYP2D6 BAMs: depth and per-variant counts of the real loading path against the independent
+        interpreter run over htslib's records."""
+        import pysam
+        from aldy.profile import Profile
+        from aldy.sam import Sample
+        from .. import repo
+
+        _, name, build = st
+        path = os.path.join(repo.REPO, "aldy", "tests", "resources", name)
+        gene = worlds.gene_of(("shipped", "cyp2d6"), build)
+        sm = Sample(gene, Profile("user_provided", cn_solution=["1", "1"]), path)
+        wide = gene.get_wide_region()
+        exp = collections.Counter()
+        n = 0
+        with pysam.AlignmentFile(path) as f:
+            prefix = "chr" if any(s["SN"].startswith("chr") for s in f.header["SQ"]) else ""
+            for r in f.fetch(region=f"{prefix}{gene.chr}:{wide.start - 500}-{wide.end + 1}"):
+                if not r.cigartuples or r.is_supplementary or "H" in r.cigarstring or not r.query_sequence:
+                    continue
+                if not (r.reference_start <= wide.start <= r.reference_end or wide.start <= r.reference_start <= wide.end):
+                    continue
+                n += 1
+                pc, ins = pileup_ref.pileup_of_read(gene, r.reference_start, pileup_ref.parse_cigar(r.cigarstring), r.query_sequence)
+                exp.update(pc)
+        bounds = (min(gene.chr_to_ref), max(gene.chr_to_ref))
+        e2, g2 = collections.Counter(), collections.Counter()
+        for (pos, op), k in exp.items():
+            if gene.region_at(pos) is not None:
+                e2[pos, op if bounds[0] <= pos <= bounds[1] else "*"] += k
+        for pos, d_ in sm.coverage._coverage.items():
+            if gene.region_at(pos) is None:
+                continue
+            for op, lst in d_.items():
+                if not op.startswith("ins"):
+                    g2[pos, op if bounds[0] <= pos <= bounds[1] else "*"] += len(lst)
+        v = []
+        if e2 != g2:
+            diff = sorted((k, g2.get(k, 0), e2.get(k, 0)) for k in set(e2) | set(g2) if e2.get(k, 0) != g2.get(k, 0))[:5]
+            v.append(("shipped-bam/pileup", f"{name}: (pos, op): aldy, interpreter = {diff}"))
+        return Outcome(v, key=("shipped", name, n, sum(g2.values())), nontrivial=True, counters={"shipped_reads": n},
+                       note={"bam": name, "eligible_reads": n, "observations": sum(g2.values())})
+
     def describe(self, st):
         if st[0] == "file":
             _, wi, build, sam_text, idx = st
@@ -174,8 +217,13 @@ class C06(Check):
                     continue     # indel realignment needs an indexed BAM
                 yield ("file", wi, "hg19" if wi else "hg38", sam_text, ())
         yield ("file", "pseudo", "hg38", False, ())
+        if self.tier == "thorough":
+            yield ("shipped_bam", "NA10860.bam", "hg19")
+            yield ("shipped_bam", "NA10860_hg38.bam", "hg38")
 
     def successors(self, st):
+        if st[0] == "shipped_bam":
+            return
         if st[0] == "cigar":
             _, wi, build, cig = st
             four_ops_slice = None
@@ -214,6 +262,8 @@ class C06(Check):
 
     # ------------------------------------------------------------------ single reads
     def evaluate(self, st):
+        if st[0] == "shipped_bam":
+            return self._eval_shipped_bam(st)
         if st[0] == "cigar":
             return self._eval_cigar(st)
         return self._eval_file(st)
